@@ -112,7 +112,7 @@ func oracleC04(c *Case, res *Result) []Violation {
 				continue
 			}
 			if tr.Outcome == "panic" {
-				return []Violation{{Class: "panic", Msg: tx.Name + ": " + tr.Panic}}
+				return []Violation{{Class: panicClass(tr.Panic), Msg: tx.Name + ": " + tr.Panic}}
 			}
 			if pi == gi && tag == "" {
 				tag = fmt.Sprintf("/writers%d", len(ph.Txns))
